@@ -3,7 +3,7 @@
    Models: models/SmtPrinter.v (SmtPrinter, SmtDagPrinter), models/SmtScript.v. *)
 From Coq Require Import List ZArith String.
 From PySMT.core Require Import Syntax Sem SmtStd.
-From PySMT.models Require Import TypeChecker SmtPrinter SmtScript.
+From PySMT.models Require Import TypeChecker Oracles SmtPrinter SmtScript.
 From PySMT.proofs Require Import SmtPrinter_proofs.
 Import ListNotations.
 Open Scope string_scope.
@@ -11,9 +11,12 @@ Open Scope string_scope.
 (* FULL STATEMENT (false of the faithful model, see the _refuted theorems):
      forall t ty I, tc t = Some ty -> printable_names t ->
        std_eval Sigma_t I (print_tree t) = Some (eval I t).
-   Proved part: every term of the fragment [wfp Sg [] t] (all operators except Pow - refuted -
-   and, not proved yet, the indexed BV operators, string constants and array values), every signature declaring its free symbols, every well-formed interpretation, any
-   nesting of binders. *)
+   Proved part: every term of the fragment [wfp Sg [] t] - EVERY operator except Pow (refuted),
+   with: constructor arities, constants in range, good symbol names declared in Sg, string
+   constants printable ASCII without backslash (open finding), array values assigned at pairwise
+   distinct Bool/Int/BV/String constants, and the arguments of Iff / extract / rotate / extend
+   typed by tc and inside C01's fragment okt - every signature, every well-formed
+   interpretation, any nesting of binders. *)
 Theorem C07_print_tree_sound_partial : forall Sg I t,
   wfp Sg [] t -> wf_interp I -> std_eval Sg I (print_tree t) = Some (eval I t).
 Proof. exact print_tree_sound_partial. Qed.
@@ -27,8 +30,9 @@ Theorem C07_print_tree_sound_under_binders : forall Sg I t bound rho J,
 Proof. exact print_tree_sound_gen. Qed.
 Print Assumptions C07_print_tree_sound_under_binders.
 
-Theorem C07_print_tree_sound_hypotheses_satisfiable : wfp ex_sig [] ex_term /\ tc ex_term = Some TBool.
-Proof. exact (conj ex_term_wfp ex_term_typed). Qed.
+Theorem C07_print_tree_sound_hypotheses_satisfiable :
+  (wfp ex_sig [] ex_term /\ tc ex_term = Some TBool) /\ (wfp ex_sig [] ex_term3 /\ tc ex_term3 = Some TBool).
+Proof. exact (conj (conj ex_term_wfp ex_term_typed) ex_term3_wfp). Qed.
 
 (* the spellings repaired in 2026-09 (str.to_int, str.from_int, div on Int operands) are in the
    fragment: a term using them satisfies the hypotheses, is printed with the SMT-LIB 2.6 names and
@@ -49,17 +53,31 @@ Theorem C07_print_tree_sound_refuted_pow :
 Proof. exact print_tree_sound_refuted_pow. Qed.
 Print Assumptions C07_print_tree_sound_refuted_pow.
 
-(* FULL STATEMENT: ... std_eval Sigma_t I (print_dag t) = Some (eval I t).  Proved part, for ALL
-   terms: the DAG printer's output is a chain of single-binding lets around the root's text and
-   means that text in the environment the lets build in order; that every bound text denotes its
-   term (freshness of let-names) is not proved - covered by the correspondence and the reader. *)
-Theorem C07_print_dag_sound_partial : forall Sg I t rho',
-  let st := dag_visit (names_of t) t dst0 in
-  lets_env Sg I (List.rev (d_lets st)) [] = Some rho' ->
-  std_eval Sg I (print_dag t) =
-  seval Sg I rho' (match memo_get t (d_memo st) with Some r => r | None => Atom "?" end).
+(* FULL STATEMENT: ... std_eval Sigma_t I (print_dag t) = Some (eval I t).  Proved for the same
+   fragment [wfp] as the tree printer (every operator except Pow; same side conditions), all
+   interpretations: the let-DAG text has the value of the formula.  Invariant (proofs file): every
+   let-name .def_N is fresh for all names the printed term can look up (its free symbols, which the
+   printer avoids, and theory symbols); each memoised text evaluates, in the environment built by
+   the lets written so far, to the value of its term; quantifier bodies are printed by a fresh
+   printer whose let-names may shadow outer ones but never a name the body uses. *)
+Theorem C07_print_dag_sound_partial : forall Sg I t,
+  wfp Sg [] t -> wf_interp I -> std_eval Sg I (print_dag t) = Some (eval I t).
 Proof. exact print_dag_sound_partial. Qed.
 Print Assumptions C07_print_dag_sound_partial.
+
+(* the same in any scope: under binders, and in an environment rho1 that already contains other
+   bindings (outer lets) as long as it agrees with a clean one on the names t can look up *)
+Theorem C07_print_dag_sound_in_scope : forall Sg I t bound rho2 J rho1,
+  wfp Sg bound t -> env_rel I bound rho2 J -> bound_good bound -> wf_interp J ->
+  (forall n, relevant (Oracles.fv t) n -> assoc n rho1 = assoc n rho2) ->
+  seval Sg I rho1 (print_dag t) = Some (eval J t).
+Proof. intros Sg I t. exact (dag_sound Sg I (tsize t) t (Nat.le_refl _)). Qed.
+
+(* the let-names the printer picks are never taken *)
+Theorem C07_new_symbol_fresh : forall names seed,
+  let '(sym, seed') := new_symbol names seed in
+  exists k, sym = def_name k /\ seed' = S k /\ (seed <= k)%nat /\ ~ In sym names.
+Proof. exact new_symbol_fresh. Qed.
 
 (* FULL STATEMENT: forall t dag logic, printable_names t -> std_script_ok (script_of dag logic t) = true.
    Not proved in general (it needs the static-sorting half); the two witnesses that refuted it
